@@ -129,10 +129,10 @@ type dialRec struct {
 }
 
 type recDialer struct {
-	mu      sync.Mutex
-	recs    []dialRec
-	groups  map[context.Context]uint64
-	nextGrp uint64
+	mu        sync.Mutex
+	recs      []dialRec
+	groups    map[context.Context]uint64
+	nextGrp   uint64
 	mode      string // "fail" | "pipe" | "v6-refused-v4-slow"
 	served    atomic.Int64
 	cancelled atomic.Int64
